@@ -13,16 +13,23 @@
     [isolated Gen.FactsC12.table] from the theorem below (cases file of the
     suite `service`, re-checked by coqc on every run). *)
 From Coq Require Import String Ascii List Bool Arith ZArith.
-From Raven Require Import Base.GoStr Model.Slicers Model.SearchOr Model.Service Spec.NoCrash
-  Proof.Slicers Proof.SearchOr Proof.Service Gen.FactsC12.
+From Raven Require Import Base.GoStr Model.Slicers Model.SearchOr Model.SearchCost Model.UserCreate Model.Service Spec.NoCrash
+  Proof.Slicers Proof.SearchOr Proof.SearchCost Proof.UserCreate Proof.Service Gen.FactsC12.
 Import ListNotations.
 
 (** ================= function layer ================= *)
 
-(** response.parseAddressList / utils.ParseAddressList, all byte strings *)
-Theorem c12_address_list_total : forall a : str, no_panic (parse_address_list a).
+(** response.parseAddressList: all byte strings, whatever net/mail.ParseAddressList answers
+    ([mail_parse] is universally quantified) *)
+Theorem c12_address_list_total : forall (mail_parse : str -> option (list (str * str))) (a : str),
+  no_panic (parse_address_list mail_parse a).
 Proof. exact parse_address_list_total. Qed.
 Print Assumptions c12_address_list_total.
+
+(** utils.ParseAddressList (comma splitting only) = the fallback *)
+Theorem c12_address_list_fallback_total : forall a : str, no_panic (parse_fallback a).
+Proof. exact parse_fallback_total. Qed.
+Print Assumptions c12_address_list_fallback_total.
 
 (** response.extractHeader / utils.ExtractHeader *)
 Theorem c12_extract_header_total : forall raw name : str, no_panic (extract_header raw name).
@@ -30,7 +37,8 @@ Proof. exact extract_header_total. Qed.
 Print Assumptions c12_extract_header_total.
 
 (** response.BuildEnvelope on every stored message *)
-Theorem c12_envelope_total : forall raw : str, no_panic (build_envelope raw).
+Theorem c12_envelope_total : forall (mail_parse : str -> option (list (str * str))) (raw : str),
+  no_panic (build_envelope mail_parse raw).
 Proof. exact build_envelope_total. Qed.
 Print Assumptions c12_envelope_total.
 
@@ -47,21 +55,33 @@ Theorem c12_partial_arith_window : forall (p : str) (start len : Z),
 Proof. exact partial_apply_window. Qed.
 Print Assumptions c12_partial_arith_window.
 
-(** FETCH BODY[n]<…>: every text after the closing bracket, every part payload *)
-Theorem c12_numeric_partial_total : forall rest payload : str, no_panic (numeric_partial rest payload).
-Proof. exact numeric_partial_total. Qed.
-Print Assumptions c12_numeric_partial_total.
+(** FETCH item list (parseFetchItems / parseFetchItem, 4d6a9a4): every byte string is tokenised
+    and every token read without a failing slice or index *)
+Theorem c12_fetch_item_total : forall tok : str, no_panic (parse_fetch_item tok).
+Proof. exact parse_fetch_item_total. Qed.
+Print Assumptions c12_fetch_item_total.
 
-(** FETCH BODY[TEXT]<…>: every item string, every body *)
-Theorem c12_text_partial_total : forall items_upper body : str, no_panic (text_partial items_upper body).
-Proof. exact text_partial_total. Qed.
-Print Assumptions c12_text_partial_total.
+Theorem c12_fetch_items_total : forall items : str, no_panic (parse_fetch_items items).
+Proof. exact parse_fetch_items_total. Qed.
+Print Assumptions c12_fetch_items_total.
 
-(** FETCH … HEADER.FIELDS prefix arithmetic: every item string (all 256 byte
-    values: the code now upper-cases ASCII letters only, which is [to_upper]) *)
-Theorem c12_header_fields_total : forall items : str, no_panic (header_fields items).
-Proof. exact header_fields_total. Qed.
-Print Assumptions c12_header_fields_total.
+(** headerFieldNames, splitMessage, the part number of BODY[n.MIME], and the range of an item
+    applied to any data *)
+Theorem c12_header_field_names_total : forall section : str, no_panic (header_field_names section).
+Proof. exact header_field_names_total. Qed.
+Print Assumptions c12_header_field_names_total.
+
+Theorem c12_split_message_total : forall msg : str, no_panic (split_message msg).
+Proof. exact split_message_total. Qed.
+Print Assumptions c12_split_message_total.
+
+Theorem c12_numeric_part_num_total : forall section : str, no_panic (numeric_part_num section).
+Proof. exact numeric_part_num_total. Qed.
+Print Assumptions c12_numeric_part_num_total.
+
+Theorem c12_apply_partial_total : forall (it : fitem) (data : str), no_panic (apply_partial it data).
+Proof. exact apply_partial_total. Qed.
+Print Assumptions c12_apply_partial_total.
 
 (** BuildBodyStructure, non-multipart branch: every stored message *)
 Theorem c12_bodystructure_single_total : forall raw : str, no_panic (bs_single_body raw).
@@ -72,6 +92,44 @@ Print Assumptions c12_bodystructure_single_total.
 Theorem c12_search_or_total : forall (tokens : list str) (i : nat), no_panic (or_step tokens i).
 Proof. exact or_step_total. Qed.
 Print Assumptions c12_search_or_total.
+
+(** ================= termination and cost ================= *)
+
+(** db.GetOrCreateUserInitialized (LMTP delivery, IMAP LOGIN / AUTHENTICATE): for EVERY users
+    table — rows may exist but be disabled — the function returns within 2 steps of its
+    body (one suffices), ... *)
+Theorem c12_user_creation_terminates : forall (t : list urow) (name : str) (dom : nat),
+  exists t' r, UserCreate.run UserCreate.step 2 t name dom Start = (t', Done r).
+Proof. exact get_or_create_terminates. Qed.
+Print Assumptions c12_user_creation_terminates.
+
+(** ... with "user not found" exactly when the key is taken by a row the lookup does not see *)
+Theorem c12_user_creation_result : forall (t : list urow) (name : str) (dom : nat),
+  snd (UserCreate.step t name dom Start) =
+  match lookup t name dom with
+  | Some id => Done (Found id)
+  | None => if existsb (same_key name dom) t then Done NotFound else Done (Created (fresh_id t))
+  end.
+Proof. exact get_or_create_result. Qed.
+Print Assumptions c12_user_creation_result.
+
+(** a variant whose conflict branch starts the function over never returns on such a table
+    (the seeded change C12-3; regression [Example restart_variant_spins] in Proof/UserCreate.v) *)
+Theorem c12_user_creation_restart_diverges : forall (t : list urow) (name : str) (dom : nat),
+  shadowed t name dom -> forall fuel, UserCreate.run UserCreate.step_restart fuel t name dom Start = (t, Start).
+Proof. exact restart_never_returns. Qed.
+Print Assumptions c12_user_creation_restart_diverges.
+
+(** SEARCH: the table of key lengths of fix c12-8 (filled once, from the last token to the
+    first) holds at every position what the recursive searchKeyLength computed — the fix
+    changes no result — and costs one step per token *)
+Theorem c12_search_key_lengths_correct : forall (l : list kind) (i : nat), nth i (lens l) 1 = klen (skipn i l).
+Proof. exact lens_correct. Qed.
+Print Assumptions c12_search_key_lengths_correct.
+
+Theorem c12_search_key_lengths_linear : forall l : list kind, length (lens l) = length l /\ new_cost l <= 3 * length l.
+Proof. exact (fun l => conj (lens_length l) (new_cost_linear l)). Qed.
+Print Assumptions c12_search_key_lengths_linear.
 
 (** ================= service layer ================= *)
 
@@ -117,21 +175,21 @@ Example c12_facts_ok_satisfiable :
 Proof. vm_compute. reflexivity. Qed.
 
 Example c12_envelope_ok_example :
-  option_map string_of_list_ascii (build_envelope (S_ "From: Ann <a@b>" ++ crlf ++ crlf))
+  option_map string_of_list_ascii (build_envelope (fun _ => None) (S_ "From: Ann <a@b>" ++ crlf ++ crlf))
   = Some "ENVELOPE (NIL NIL ((""Ann"" NIL ""a"" ""b"")) ((""Ann"" NIL ""a"" ""b"")) ((""Ann"" NIL ""a"" ""b"")) NIL NIL NIL NIL NIL)"%string.
 Proof. vm_compute. reflexivity. Qed.
 
 (** the former witnesses now have values *)
 Example c12_former_witnesses :
-  option_map string_of_list_ascii (parse_address_list (S_ ">a<")) = Some "((NIL NIL "">a<"" NIL))"%string
-  /\ option_map string_of_list_ascii (parse_address_list (S_ "x> <a@b>")) = Some "((""x>"" NIL ""a"" ""b""))"%string
-  /\ numeric_partial (S_ "<1.9223372036854775807>") (S_ "body") = Some (S_ "ody")
-  /\ text_partial (S_ "BODY[TEXT]<3.-2>") (S_ "hello") = Some []
-  /\ header_fields (S_ "BODY[HEADER.FIELDS]") = Some (Some hf_defaults)
+  option_map string_of_list_ascii (parse_fallback (S_ ">a<")) = Some "((NIL NIL "">a<"" NIL))"%string
+  /\ option_map string_of_list_ascii (parse_address_list (fun _ => Some [(S_ "x>", S_ "a@b@c")]) (S_ "x> <a@b@c>"))
+     = Some "((""x>"" NIL ""a@b"" ""c""))"%string
+  /\ option_map f_partial (parse_fetch_item (S_ "BODY[1]<1.9223372036854775807>")) = Some (Some (1, 9223372036854775807)%Z)
+  /\ option_map f_partial (parse_fetch_item (S_ "BODY[TEXT]<3.-2>")) = Some None
+  /\ option_map (map (fun it => string_of_list_ascii (f_sec it))) (parse_fetch_items (S_ "(FLAGS BODY[HEADER.FIELDS (a b)] BODY[HEADER.FIELDS"))
+     = Some [""; "HEADER.FIELDS (a b)"; "HEADER.FIELDS"]%string
+  /\ header_field_names (S_ "HEADER.FIELDS") = Some hf_defaults
   /\ bs_single_body (S_ "A: b" ++ crlf ++ S_ "C: d" ++ [LF; LF]) = Some []
-  /\ or_step [S_ "OR"; S_ "KEYWORD"; S_ "x"] 0 = Some None.
+  /\ or_step [S_ "OR"; S_ "KEYWORD"; S_ "x"] 0 = Some None
+  /\ quote_or_nil (S_ "a" ++ [CR] ++ S_ "b") = S_ "{3}" ++ crlf ++ S_ "a" ++ [CR] ++ S_ "b".
 Proof. vm_compute. repeat split; reflexivity. Qed.
-
-Example c12_partial_ok_example :
-  option_map string_of_list_ascii (numeric_partial (S_ "<1.3>") (S_ "hello")) = Some "ell"%string.
-Proof. vm_compute. reflexivity. Qed.
